@@ -163,6 +163,14 @@ def curated_behaviour():
         ('Trailer', 'enum', [('Semi', ('tuple', [(True, T('Semi'))])), ('None', ('tuple', [(True, N('Blank'))]))]),
         ('Blank', 'struct', [(None, ('tuple', [(True, N('Nothing'))]))]),
         ('Nothing', 'struct', [(None, ('empty',))])]))
+    # wide productions (more than ten positions), tuple and named, with `_` positions in between
+    specs.append(G('W', [('A', 'u32'), ('B', '()')], [
+        ('W', 'enum', [('Tup', ('tuple', [(True, T('A')), (False, T('B')), (True, T('A')), (True, T('A')), (False, T('A')), (True, T('A')),
+                                          (True, T('A')), (True, T('A')), (False, T('B')), (True, T('A')), (True, T('A')), (True, T('A')),
+                                          (True, T('A'))])),
+                       ('Nam', ('named', [(None, T('B')), ('f1', T('A')), ('f2', T('A')), (None, T('A')), ('f4', T('A')), ('f5', T('A')),
+                                          ('f6', T('A')), ('f7', T('A')), ('f8', T('A')), ('f9', T('A')), ('f10', T('A')), ('f11', T('A')),
+                                          ('f12', T('A'))]))])]))
     # two contexts whose item-set cores are a strict prefix of one another
     specs.append(G('S', [('P', '()'), ('Q', '()'), ('X', 'u32'), ('Y', 'u32'), ('Z', 'u32')], [
         ('S', 'enum', [('P', ('tuple', [(True, T('P')), (True, N('A'))])), ('Q', ('tuple', [(True, T('Q')), (True, N('C'))]))]),
@@ -424,19 +432,30 @@ def behaviour_check(ctx, pid):
         x = vlib.run_rust('gen', checks.hex_lines([s]))[0]
         if x.startswith('Ok(x'):
             grammars.append((g, s, x))
-    grammars += accepted_grammars(ctx, ng, behaviour=True, max_nts=4, max_terms=4, motifs=0.7)
+    grammars += accepted_grammars(ctx, ng, behaviour=True, max_nts=4, max_terms=4, motifs=0.7, wide=0.15)
     inputs = [inputs_for(ctx, g, ctx.n(12, 60), ctx.n(20, 120), ctx.n(8, 60), exhaustive_len=ctx.n(3, 6)) for g, _, _ in grammars]
     srcs = [s for _, s, _ in grammars]
     # implementation: compile the real emitted text and run it
     key = hashlib.sha256(('%s/%s/%d/%s' % (vlib.repo_hash(), ctx.tier, ctx.seed, 'beh')).encode()).hexdigest()[:12]
     table, out = compile_and_run('run-' + pid, grammars, inputs)
-    if table is None:
-        bad = failing_modules(out)
-        for k, msg in bad.items():
-            if isinstance(k, int):
-                res.failures.append(dict(kind='emitted-parser-does-not-compile', src=srcs[k], impl=short(msg), expected='a compiling module'))
+    rounds = 0
+    while table is None and rounds < 5:
+        # some emitted module does not compile: report it, drop it, and go on with the others
+        rounds += 1
+        bad = sorted(k for k in failing_modules(out) if isinstance(k, int))
         if not bad:
             res.failures.append(dict(kind='emitted-parser-does-not-compile', src=srcs[0], impl=short(out, 1500), expected='a compiling crate'))
+            return res
+        msgs = failing_modules(out)
+        for k in bad:
+            res.failures.append(dict(kind='emitted-parser-does-not-compile', src=srcs[k], impl=short(msgs[k]), expected='a compiling module'))
+        keep = [i for i in range(len(grammars)) if i not in bad]
+        grammars = [grammars[i] for i in keep]
+        inputs = [inputs[i] for i in keep]
+        srcs = [srcs[i] for i in keep]
+        table, out = compile_and_run('run-' + pid, grammars, inputs)
+    if table is None:
+        res.failures.append(dict(kind='emitted-parser-does-not-compile', src=srcs[0] if srcs else '', impl=short(out, 1500), expected='a compiling crate'))
         return res
     if 'flag' in table:
         res.failures.append(dict(kind='iterator-polled-after-None-or-timeout', src='', impl=table['flag'], expected='no poll after None'))
@@ -539,8 +558,9 @@ NOTRAIT_TYPES = ['()', 'crate::pay::NoTraits', 'crate::pay::NoTraitsG<crate::pay
 def client_fn(i, g):
     """C06: a function outside module p<i> that names every declared type, field and variant
     and the parse signature; it must type-check.  Built from the grammar, not from the emitted text."""
-    ttype = dict(g.terminals)
+    ntnames = {nt['name'] for nt in g.nts}
     m = 'p%d' % i
+    ttype = {t: (('%s::%s' % (m, ty)) if ty in ntnames else ty) for t, ty in g.terminals}
     L = ['fn client_%d() {\n' % i]
 
     def fty(sym):
@@ -574,7 +594,7 @@ def client_fn(i, g):
                 pat, binds = pattern('%s::%s::%s' % (m, nt['name'], vname), fs, 'f%d_%d' % (n, vi))
                 arms.append('%s => { %s }' % (pat, ' '.join('let _: %s = %s;' % (ty, b) for b, ty in binds)))
             L.append('    { let v: %s::%s = any(); match v { %s } }\n' % (m, nt['name'], ' '.join(arms)))
-    arms = ['%s::%s::%s(x) => { let _: %s = x; }' % (m, g.tenum, t, ty) for t, ty in g.terminals]
+    arms = ['%s::%s::%s(x) => { let _: %s = x; }' % (m, g.tenum, t, ttype[t]) for t, ty in g.terminals]
     L.append('    { let v: %s::%s = any(); match v { %s } }\n' % (m, g.tenum, ' '.join(arms)))
     L.append('    { let _f: fn(Vec<%s::%s>) -> Result<%s::%s, Option<%s::%s>> = %s::parse::<Vec<%s::%s>>; }\n'
              % (m, g.tenum, m, g.start, m, g.tenum, m, m, g.tenum))
@@ -645,8 +665,10 @@ def check_C05(ctx):
         cases.append((None, gen.CURATED[k]))
     n = ctx.n(40, 500)
     for _ in range(3 * n):
-        g = gen.gen_grammar(ctx.rng, adversarial=0.9, max_nts=5, max_terms=4)
+        g = gen.gen_grammar(ctx.rng, adversarial=0.9, max_nts=5, max_terms=4, empty_helper_enum=0.25)
         g.terminals = [(t, ctx.rng.choice(NOTRAIT_TYPES)) for t, _ in g.terminals]
+        if g.terminals and ctx.rng.random() < 0.15:
+            gen.retype_like_nonterminal(ctx.rng, g)
         g.tenum_attrs = []
         for nt in g.nts:
             nt['attrs'] = []
@@ -691,7 +713,7 @@ def check_C06(ctx):
         x = vlib.run_rust('gen', checks.hex_lines([s]))[0]
         if x.startswith('Ok(x'):
             grammars.append((g, s, x))
-    grammars += accepted_grammars(ctx, n, behaviour=True, max_nts=5, max_terms=4)
+    grammars += accepted_grammars(ctx, n, behaviour=True, max_nts=5, max_terms=4, payload_like_nt=0.3, empty_helper_enum=0.1, wide=0.1)
     srcs = [s for _, s, _ in grammars]
     m = vlib.run_model('gen', checks.gen_lines(srcs)) if ctx.model_ok else [None] * len(srcs)
     failed = set()
